@@ -24,7 +24,7 @@ from ..loader import AnalysisError
 from ..affine import affine, NotAffine
 from .. import tables as T
 from . import common
-from .c07 import mentions
+from .c07 import mentions, _cmp_parts, enclosing_context
 
 PINIT = "cobyqa.problem:Problem.__init__"
 
@@ -329,3 +329,74 @@ def run(ctx, rep, r1="R10.1", r2="R10.2", only_transform=False):
                 rep.finding(r2, gb, norm(node)[:100], node.lineno, "this way of stating the bounds is not normalised to Bounds(lower, upper)")
     if n < 3:
         raise AnalysisError("_get_bounds: fewer than 3 Bounds(...) returns")
+
+
+# ---------------------------------------------------------------------------
+def r105(ctx, rep, rule="R10.5"):
+    """dict constraints: {'type': 'eq'} is fun(x) = 0, {'type': 'ineq'} is
+    fun(x) >= 0 (scipy's convention): the NonlinearConstraint built for it has
+    lb = 0 and ub = 0 for 'eq', ub = +inf for 'ineq'."""
+    f = ctx.func("cobyqa.main:_get_constraints")
+    found = 0
+    for node in ast.walk(f.node):
+        if not (isinstance(node, ast.Call) and (dotted(node.func) or "").split(".")[-1] == "NonlinearConstraint" and len(node.args) + len(node.keywords) >= 3):
+            continue
+        args = list(node.args) + [None] * 3
+        lb = args[1] if args[1] is not None else next((k.value for k in node.keywords if k.arg == "lb"), None)
+        ub = args[2] if args[2] is not None else next((k.value for k in node.keywords if k.arg == "ub"), None)
+        if lb is None or ub is None:
+            continue
+        # only the construction that depends on the dict's 'type'
+        if not any(isinstance(x, ast.Constant) and x.value in ("eq", "ineq") for x in ast.walk(node)):
+            # the type may be tested by an enclosing if
+            ctxs = [c for c in enclosing_context(node, f.node) if c[0] in ("if-true", "if-false") and any(isinstance(x, ast.Constant) and x.value in ("eq", "ineq") for x in ast.walk(c[1]))]
+            if not ctxs:
+                continue
+            kind, test, _n = ctxs[0]
+            p = _cmp_parts(test)
+            if not (p and isinstance(p[2], ast.Constant) and p[1] in ("==", "!=")):
+                raise AnalysisError(f"_get_constraints:{node.lineno} test of the dict constraint type has an unfamiliar shape")
+            is_eq = (p[2].value == "eq") == ((p[1] == "==") == (kind == "if-true"))
+            found += 1
+            desc = f"_get_constraints:{node.lineno} dict constraint of type {'eq' if is_eq else 'ineq'} -> NonlinearConstraint(fun, {norm(lb)}, {norm(ub)})"
+            good = const_value(lb) == 0.0 and ((is_eq and const_value(ub) == 0.0) or (not is_eq and norm(ub).replace(" ", "") in ("np.inf", "numpy.inf", "inf", "float('inf')")))
+            if good:
+                rep.ok(rule, desc)
+            else:
+                rep.bad(rule, desc)
+                rep.finding(rule, f, norm(node)[:120], node.lineno, "a dict constraint is not translated as scipy defines it ('eq': fun(x) = 0, 'ineq': fun(x) >= 0)")
+            continue
+        found += 1
+        desc = f"_get_constraints:{node.lineno} dict constraint -> NonlinearConstraint(fun, {norm(lb)}, {norm(ub)[:50]})"
+        good = const_value(lb) == 0.0
+        if isinstance(ub, ast.IfExp):
+            p = _cmp_parts(ub.test)
+            if p and isinstance(p[2], ast.Constant) and p[2].value in ("eq", "ineq") and p[1] in ("==", "!="):
+                eq_branch, other = (ub.body, ub.orelse) if (p[2].value == "eq") == (p[1] == "==") else (ub.orelse, ub.body)
+                good = good and const_value(eq_branch) == 0.0 and norm(other).replace(" ", "") in ("np.inf", "numpy.inf", "inf")
+            else:
+                raise AnalysisError(f"_get_constraints:{node.lineno} test of the dict constraint type has an unfamiliar shape")
+        else:
+            raise AnalysisError(f"_get_constraints:{node.lineno} upper limit of a dict constraint has an unfamiliar shape")
+        if good:
+            rep.ok(rule, desc + " ('eq' -> 0, 'ineq' -> +inf)")
+        else:
+            rep.bad(rule, desc)
+            rep.finding(rule, f, norm(node)[:140], node.lineno, "a dict constraint is not translated as scipy defines it ('eq': fun(x) = 0, i.e. lb = ub = 0; 'ineq': fun(x) >= 0, i.e. lb = 0, ub = +inf)")
+    if found < 1:
+        raise AnalysisError("_get_constraints: construction of a NonlinearConstraint from a dict constraint not found")
+    # duplicated operands in the validation code of the front door (copy/paste slips
+    # that make a test check the same thing twice)
+    k = common.check_duplicate_operands(ctx, rep, rule, ["cobyqa.main:_get_bounds", "cobyqa.main:_get_constraints", "cobyqa.problem:Problem.__init__"])
+    if k < 3:
+        raise AnalysisError("front-door validation conditions not found")
+
+
+_old_run10 = run
+
+
+def run(ctx, rep, r1="R10.1", r2="R10.2", only_transform=False):  # noqa: F811
+    _old_run10(ctx, rep, r1=r1, r2=r2, only_transform=only_transform)
+    if not only_transform:
+        rep.rule("R10.5", "dict constraints are translated with scipy's convention ('eq': = 0, 'ineq': >= 0); front-door validation tests do not test the same operand twice")
+        r105(ctx, rep)
